@@ -8,9 +8,18 @@ cd $wt || exit 2
 git checkout -q -- . ; rm -f sylvia/tests/seeded_demo*.rs
 [ -f $out/patch$n.diff ] || { echo "$id patch$n: no patch"; exit 0; }
 cp $out/demo$n.rs sylvia/tests/seeded_demo$n.rs
-cargo test -p sylvia --features mt --test seeded_demo$n --offline > $out/confirm_demo${n}_without.log 2>&1 && dw=pass || dw=fail
+sel="-p sylvia --features mt"
+cargo test $sel --test seeded_demo$n --offline > $out/confirm_demo${n}_without.log 2>&1 && dw=pass || dw=fail
+if [ $dw = fail ]; then   # some demonstrations need the feature set of a workspace build
+  sel="--workspace"
+  cargo test $sel --test seeded_demo$n --offline > $out/confirm_demo${n}_without.log 2>&1 && dw=pass || dw=fail
+fi
+if [ $dw = fail ]; then
+  sel="-p sylvia"
+  cargo test $sel --test seeded_demo$n --offline > $out/confirm_demo${n}_without.log 2>&1 && dw=pass || dw=fail
+fi
 git apply $out/patch$n.diff || { echo "APPLY FAILED"; exit 2; }
-cargo test -p sylvia --features mt --test seeded_demo$n --offline > $out/confirm_demo${n}_with.log 2>&1 && dp=pass || dp=fail
+cargo test $sel --test seeded_demo$n --offline > $out/confirm_demo${n}_with.log 2>&1 && dp=pass || dp=fail
 rm -f sylvia/tests/seeded_demo$n.rs
 cargo test --workspace --no-fail-fast --offline > $out/confirm_suite${n}_with.log 2>&1 && sp=pass || sp=fail
 git checkout -q -- .
